@@ -752,7 +752,7 @@ func (s *state) alterType(b *sqlx.Builder, alter *changeGroup, t *schema.Table, 
 			Cmd:     create,
 			Reverse: drop,
 		})
-		b.P("SET DEFAULT", fmt.Sprintf("nextval('%s')", seq))
+		b.P("SET DEFAULT", fmt.Sprintf("nextval(%s)", quote(seq)))
 		toT, err := FormatType(toS.IntegerType())
 		if err != nil {
 			return err
